@@ -133,8 +133,12 @@ def run(chk, repo):
         loc = [x for x in G.find_calls(lp, 'FeatureLocation')]
         dn = unparse(kwarg(loc[0], 'start')) if loc else None
         ok = len(loc) == 1 and unparse(kwarg(loc[0], 'end')) == f"{dn} + 1"
-        fid = [n for n in lp.body if isinstance(n, ast.Assign) and unparse(n.targets[0]) == 'fusion_id']
-        txt = unparse(fid[0].value) if fid else ''
+        # the identifier: the `_id` argument of the record built in the loop, through whatever locals it is assembled
+        from sa import sem as _s15
+        vr = [x for x in G.find_calls(lp, 'VariantRecord') if kwarg(x, '_id') is not None]
+        txt = ''
+        if len(vr) == 1:
+            txt = unparse(_s15.expand_names(p.node, repo.enclosing_stmt(vr[0]), kwarg(vr[0], '_id')))
         accn = None
         for n in ast.walk(lp):
             if isinstance(n, ast.Dict):
